@@ -18,6 +18,13 @@ func (c *Ctx) scopeAll() map[*ssa.Function]bool {
 
 func init() {
 	register(&PropSpec{
+		ID:          "C12",
+		Explanation: "R-MAPORDER",
+		Rules: []func(*Ctx){
+			func(c *Ctx) { c.ruleMapOrder("R-MAPORDER", c.M, c.scopeAll()) },
+		},
+	})
+	register(&PropSpec{
 		ID:          "C04",
 		Explanation: "R-ASSERT over functions reachable from the data API",
 		Assumptions: []string{"A1-A4 (DESIGN §3.0.5)"},
